@@ -4,7 +4,12 @@ ufunc routing and setters of `backends/object.py`): for every public property,
 method, conversion and operator — which compute module is used for which
 operand dimensions, which dimension guards raise `TypeError`, the argument
 order, which operands count for handler/flavor, keyword handling of the
-dimension-changing conversions.
+dimension-changing conversions; and the object vector as a state machine
+(coordinate assignment, in-place operators).
+
+Internally everything is keyed by small enumerations (`Acc`, `CName`,
+`ModuleId`); strings occur only in the parsing layer at the bottom, so the
+theorems in `Props/` never evaluate a string.
 -/
 import VectorModel.Glue.Core
 
@@ -12,12 +17,6 @@ set_option linter.constructorNameAsVariable false
 set_option linter.unusedVariables false
 namespace VG
 open VK
-
-section
-variable {S B : Type}
-
-def modOf (s : String) : Option ModuleId := ModuleId.all.find? (fun m => m.str == s)
-def grp (d : Nat) : String := if d == 2 then "planar" else if d == 3 then "spatial" else "lorentz"
 
 /-- scalar arithmetic the method layer itself performs (`1 / f` in `/`, `abs ** p`, `** 0.25`) -/
 structure Arith (S : Type) where
@@ -27,53 +26,64 @@ structure Arith (S : Type) where
   sixth : S
   isTwo : S → Bool      -- `other == 2` test of `__pow__`
 
-/-- momentum spellings of the generic property names -/
-def momAlias : List (String × String × Nat) := [
-  ("px", "x", 2), ("py", "y", 2), ("pt", "rho", 2), ("pt2", "rho2", 2),
-  ("pz", "z", 3), ("pseudorapidity", "eta", 3), ("p", "mag", 3), ("p2", "mag2", 3),
-  ("E", "t", 4), ("e", "t", 4), ("energy", "t", 4), ("E2", "t2", 4), ("e2", "t2", 4), ("energy2", "t2", 4),
-  ("M", "tau", 4), ("m", "tau", 4), ("mass", "tau", 4), ("M2", "tau2", 4), ("m2", "tau2", 4), ("mass2", "tau2", 4),
-  ("et", "Et", 4), ("transverse_energy", "Et", 4), ("et2", "Et2", 4), ("transverse_energy2", "Et2", 4),
-  ("mt", "Mt", 4), ("transverse_mass", "Mt", 4), ("mt2", "Mt2", 4), ("transverse_mass2", "Mt2", 4)]
+/-- the accessor-like properties backed by one compute module each -/
+inductive Acc
+  | x | y | rho | rho2 | phi
+  | z | theta | eta | costheta | cottheta | mag | mag2
+  | t | t2 | tau | tau2 | beta | gamma | rapidity
+  | Et | Et2 | Mt | Mt2
+  deriving DecidableEq, Repr, Inhabited
 
-def planarProps := ["x", "y", "rho", "rho2", "phi"]
-def spatialProps := ["z", "theta", "eta", "costheta", "cottheta", "mag", "mag2"]
-def lorentzProps := ["t", "t2", "tau", "tau2", "beta", "gamma", "rapidity"]
-def lorentzMomProps := ["Et", "Et2", "Mt", "Mt2"]
+def Acc.mod : Acc → ModuleId
+  | .x => .planar_x | .y => .planar_y | .rho => .planar_rho | .rho2 => .planar_rho2 | .phi => .planar_phi
+  | .z => .spatial_z | .theta => .spatial_theta | .eta => .spatial_eta | .costheta => .spatial_costheta
+  | .cottheta => .spatial_cottheta | .mag => .spatial_mag | .mag2 => .spatial_mag2
+  | .t => .lorentz_t | .t2 => .lorentz_t2 | .tau => .lorentz_tau | .tau2 => .lorentz_tau2 | .beta => .lorentz_beta
+  | .gamma => .lorentz_gamma | .rapidity => .lorentz_rapidity
+  | .Et => .lorentz_Et | .Et2 => .lorentz_Et2 | .Mt => .lorentz_Mt | .Mt2 => .lorentz_Mt2
 
-def dispatchS (ev : Ev S B) (mod : String) (scalars : List S) (ord : Option Ord) (ops counted : List (Vec S)) :
-    Except Err (Res S B) :=
-  match modOf mod with
-  | none => .error .unmodelled
-  | some m => dispatch ev m scalars ord ops counted
+/-- smallest dimension of a vector that has the property -/
+def Acc.need : Acc → Nat
+  | .x | .y | .rho | .rho2 | .phi => 2
+  | .z | .theta | .eta | .costheta | .cottheta | .mag | .mag2 => 3
+  | _ => 4
 
-/-- a property / zero-argument accessor -/
-def prop (ev : Ev S B) (K : Consts S) (name : String) (v : Vec S) : Except Err (Res S B) :=
-  let d := v.ty.dim
-  if planarProps.contains name then dispatchS ev s!"planar_{name}" [] none [v] [v]
-  else if spatialProps.contains name then
-    if d < 3 then .error .attributeError else dispatchS ev s!"spatial_{name}" [] none [v] [v]
-  else if lorentzProps.contains name then
-    if d < 4 then .error .attributeError else dispatchS ev s!"lorentz_{name}" [] none [v] [v]
-  else if lorentzMomProps.contains name then
-    if d < 4 || !v.ty.mom then .error .attributeError else dispatchS ev s!"lorentz_{name}" [] none [v] [v]
-  else if name == "neg2D" then dispatchS ev "planar_scale" [K.negOne] none [v] [v]
-  else if name == "neg3D" then
-    if d < 3 then .error .attributeError else dispatchS ev "spatial_scale" [K.negOne] none [v] [v]
-  else if name == "neg4D" then
-    if d < 4 then .error .attributeError else dispatchS ev "lorentz_scale" [K.negOne] none [v] [v]
-  else .error .unmodelled
+/-- `Et`, `Et2`, `Mt`, `Mt2` exist on momentum vectors only -/
+def Acc.momOnly : Acc → Bool
+  | .Et | .Et2 | .Mt | .Mt2 => true
+  | _ => false
 
-def scalarOf : Res S B → Option S | .scalar s => some s | _ => none
+/-- the nine stored-coordinate names (each is also an accessor) -/
+inductive CName | x | y | rho | phi | z | theta | eta | t | tau
+  deriving DecidableEq, Repr, Inhabited
 
-/-- coordinate of `v` named by a generic accessor (used by the conversions) -/
-def coord (ev : Ev S B) (K : Consts S) (name : String) (v : Vec S) : Except Err S :=
-  match prop ev K name v with
+def CName.acc : CName → Acc
+  | .x => .x | .y => .y | .rho => .rho | .phi => .phi | .z => .z | .theta => .theta | .eta => .eta | .t => .t | .tau => .tau
+
+def azCNames : Az → List CName | .xy => [.x, .y] | .rhophi => [.rho, .phi]
+def lonCName : Lon → CName | .z => .z | .theta => .theta | .eta => .eta
+def tmpCName : Tmp → CName | .t => .t | .tau => .tau
+
+section
+variable {S B : Type}
+
+/-- read an accessor: `dispatch` of its module on the vector itself -/
+def getAcc (ev : Ev S B) (a : Acc) (v : Vec S) : Except Err (Res S B) :=
+  if v.ty.dim < a.need || (a.momOnly && !v.ty.mom) then .error .attributeError
+  else dispatch ev a.mod [] none [v] [v]
+
+def getS (ev : Ev S B) (a : Acc) (v : Vec S) : Except Err S :=
+  match getAcc ev a v with
   | .ok (.scalar s) => .ok s
   | .ok _ => .error .assertionError
   | .error e => .error e
 
-def ordOf (s : String) : Option Ord := Ord.all.find? (fun o => o.str == s.toLower)
+def scaleMod : Nat → ModuleId | 2 => .planar_scale | 3 => .spatial_scale | _ => .lorentz_scale
+def unitMod : Nat → ModuleId | 2 => .planar_unit | 3 => .spatial_unit | _ => .lorentz_unit
+
+/-- `scale` with the module of dimension `n` applied to `v` (`scale2D` on a 4D vector keeps z and t) -/
+def scaleN (ev : Ev S B) (n : Nat) (f : S) (v : Vec S) : Except Err (Res S B) :=
+  if v.ty.dim < n then .error .attributeError else dispatch ev (scaleMod n) [f] none [v] [v]
 
 def lonOfKw : String → Option Lon
   | "z" => some .z | "pz" => some .z | "theta" => some .theta | "eta" => some .eta | _ => none
@@ -81,37 +91,269 @@ def tmpOfKw : String → Option Tmp
   | "t" => some .t | "e" => some .t | "E" => some .t | "energy" => some .t
   | "tau" => some .tau | "m" => some .tau | "M" => some .tau | "mass" => some .tau | _ => none
 
-def kwargs (args : List (Arg S)) : List (String × S) :=
-  args.filterMap fun a => match a with | .kw k s => some (k, s) | _ => none
-
 /-- `to_Vector2D/3D/4D` (and `to_2D/3D/4D`, `like`): retained stored coordinates verbatim; the imputed coordinate is the
-keyword's value in the coordinate type the keyword names, or `0.0`; two keywords of one group are rejected. -/
-def toDim (K : Consts S) (target : Nat) (v : Vec S) (kws : List (String × S)) : Except Err (Res S B) :=
+value of the keyword, in the coordinate type the keyword names, or `0.0`; two keywords of one group are rejected.
+`lonKw`/`tmpKw`: the (already classified) keyword arguments. -/
+def toDim (zeroF : S) (target : Nat) (v : Vec S) (lonKw : List (Lon × S)) (tmpKw : List (Tmp × S)) (otherKw : Nat) :
+    Except Err (Vec S) :=
   let d := v.ty.dim
-  let lonKws := kws.filter fun (k, _) => (lonOfKw k).isSome
-  let tmpKws := kws.filter fun (k, _) => (tmpOfKw k).isSome
-  let other := kws.filter fun (k, _) => (lonOfKw k).isNone && (tmpOfKw k).isNone
-  -- keywords accepted by the signature of the method for this source dimension
   let lonAllowed := d == 2 && target ≥ 3
   let tmpAllowed := d ≤ 3 && target == 4
-  if !other.isEmpty || (!lonAllowed && !lonKws.isEmpty) || (!tmpAllowed && !tmpKws.isEmpty) then .error .typeError
-  else if lonKws.length > 1 || tmpKws.length > 1 then .error .typeError
-  else if target == d then .ok (.vec v)
+  if otherKw > 0 || (!lonAllowed && !lonKw.isEmpty) || (!tmpAllowed && !tmpKw.isEmpty) then .error .typeError
+  else if lonKw.length > 1 || tmpKw.length > 1 then .error .typeError
+  else if target == d then .ok v
   else
     let ty := v.ty
     let lonT : Option Lon := if target < 3 then none else match ty.lon with
       | some l => some l
-      | none => some (match lonKws with | (k, _) :: _ => (lonOfKw k).getD .z | [] => .z)
+      | none => some (match lonKw with | (l, _) :: _ => l | [] => .z)
     let lonV : List S := if target < 3 then [] else match ty.lon with
       | some _ => v.lonEl
-      | none => [match lonKws with | (_, s) :: _ => s | [] => K.zeroF]
+      | none => [match lonKw with | (_, s) :: _ => s | [] => zeroF]
     let tmpT : Option Tmp := if target < 4 then none else match ty.tmp with
       | some t => some t
-      | none => some (match tmpKws with | (k, _) :: _ => (tmpOfKw k).getD .t | [] => .t)
+      | none => some (match tmpKw with | (t, _) :: _ => t | [] => .t)
     let tmpV : List S := if target < 4 then [] else match ty.tmp with
       | some _ => v.tmpEl
-      | none => [match tmpKws with | (_, s) :: _ => s | [] => K.zeroF]
-    .ok (.vec ⟨{ ty with lon := lonT, tmp := tmpT }, v.azEl ++ lonV ++ tmpV⟩)
+      | none => [match tmpKw with | (_, s) :: _ => s | [] => zeroF]
+    .ok ⟨{ ty with lon := lonT, tmp := tmpT }, v.azEl ++ lonV ++ tmpV⟩
+
+/-- `to_<system>`: every output coordinate is the accessor of that name; coordinates of a group the vector does not have
+are imputed from the keyword (`kl`, `kt`: supplied values, if any) or `0.0` -/
+def toSystem (ev : Ev S B) (zeroF : S) (v : Vec S) (az : Az) (lon : Option Lon) (tmp : Option Tmp)
+    (kl kt : Option S) : Except Err (Vec S) := do
+  let d := v.ty.dim
+  let azv ← (azCNames az).mapM (fun n => getS ev n.acc v)
+  let lonv ← match lon with
+    | none => pure []
+    | some l => if d ≥ 3 then (do let s ← getS ev (lonCName l).acc v; pure [s]) else pure [kl.getD zeroF]
+  let tmpv ← match tmp with
+    | none => pure []
+    | some t => if d ≥ 4 then (do let s ← getS ev (tmpCName t).acc v; pure [s]) else pure [kt.getD zeroF]
+  pure ⟨{ v.ty with az := az, lon := lon, tmp := tmp }, azv ++ lonv ++ tmpv⟩
+
+/-! ### binary methods -/
+
+inductive Bin
+  | add | subtract | dot | equal | not_equal | isclose
+  | is_parallel | is_antiparallel | is_perpendicular
+  | deltaphi | deltaangle | deltaeta | deltaR | deltaR2 | deltaRapidityPhi | deltaRapidityPhi2
+  | cross | boost_p4 | boost_beta3 | boost | boostCM_of_p4 | boostCM_of_beta3 | boostCM_of
+  deriving DecidableEq, Repr, Inhabited
+
+/-- module of a same-dimension binary method for dimension `d` -/
+def Bin.sameDimMod : Bin → Nat → Option ModuleId
+  | .add, 2 => some .planar_add | .add, 3 => some .spatial_add | .add, 4 => some .lorentz_add
+  | .subtract, 2 => some .planar_subtract | .subtract, 3 => some .spatial_subtract | .subtract, 4 => some .lorentz_subtract
+  | .dot, 2 => some .planar_dot | .dot, 3 => some .spatial_dot | .dot, 4 => some .lorentz_dot
+  | .equal, 2 => some .planar_equal | .equal, 3 => some .spatial_equal | .equal, 4 => some .lorentz_equal
+  | .not_equal, 2 => some .planar_not_equal | .not_equal, 3 => some .spatial_not_equal | .not_equal, 4 => some .lorentz_not_equal
+  | .isclose, 2 => some .planar_isclose | .isclose, 3 => some .spatial_isclose | .isclose, 4 => some .lorentz_isclose
+  | .is_parallel, 2 => some .planar_is_parallel | .is_parallel, _ => some .spatial_is_parallel
+  | .is_antiparallel, 2 => some .planar_is_antiparallel | .is_antiparallel, _ => some .spatial_is_antiparallel
+  | .is_perpendicular, 2 => some .planar_is_perpendicular | .is_perpendicular, _ => some .spatial_is_perpendicular
+  | _, _ => none
+
+def negN (ev : Ev S B) (K : Consts S) (n : Nat) (v : Vec S) : Except Err (Res S B) := scaleN ev n K.negOne v
+
+/-- binary methods; `extra` = explicit scalar arguments (tolerance / rtol, atol, equal_nan), else the defaults -/
+def binary (ev : Ev S B) (K : Consts S) (b : Bin) (self o : Vec S) (extra : List S) : Except Err (Res S B) :=
+  let d := self.ty.dim
+  let both := [self, o]
+  match b with
+  | .add | .subtract | .dot | .equal | .not_equal =>
+    if o.ty.dim != d then .error .typeError else
+    match b.sameDimMod d with | some m => dispatch ev m [] none both both | none => .error .assertionError
+  | .isclose =>
+    if o.ty.dim != d then .error .typeError else
+    match b.sameDimMod d with
+    | some m => dispatch ev m (if extra.isEmpty then [K.rtol, K.atol, K.bFalse] else extra) none both both
+    | none => .error .assertionError
+  | .is_parallel | .is_antiparallel | .is_perpendicular =>
+    if o.ty.dim != d then .error .typeError else
+    match b.sameDimMod d with
+    | some m => dispatch ev m (if extra.isEmpty then [K.tol] else extra) none both both
+    | none => .error .assertionError
+  | .deltaphi => dispatch ev .planar_deltaphi [] none both both
+  | .deltaangle | .deltaeta | .deltaR | .deltaR2 =>
+    if d < 3 then .error .attributeError else
+    if o.ty.dim != 3 && o.ty.dim != 4 then .error .typeError else
+    dispatch ev (match b with | .deltaangle => .spatial_deltaangle | .deltaeta => .spatial_deltaeta
+                              | .deltaR => .spatial_deltaR | _ => .spatial_deltaR2) [] none both both
+  | .deltaRapidityPhi | .deltaRapidityPhi2 =>
+    if d < 4 then .error .attributeError else
+    if o.ty.dim != 4 then .error .typeError else
+    dispatch ev (match b with | .deltaRapidityPhi => .lorentz_deltaRapidityPhi | _ => .lorentz_deltaRapidityPhi2) [] none both both
+  | .cross =>
+    if d < 3 then .error .attributeError else
+    if d != 3 || o.ty.dim != 3 then .error .typeError else dispatch ev .spatial_cross [] none both both
+  | .boost_p4 =>
+    if d < 4 then .error .attributeError else
+    if o.ty.dim != 4 then .error .typeError else dispatch ev .lorentz_boost_p4 [] none both both
+  | .boost_beta3 =>
+    if d < 4 then .error .attributeError else
+    if o.ty.dim != 3 then .error .typeError else dispatch ev .lorentz_boost_beta3 [] none both both
+  | .boost =>
+    if d < 4 then .error .attributeError else
+    if o.ty.dim == 3 then dispatch ev .lorentz_boost_beta3 [] none both both
+    else if o.ty.dim == 4 then dispatch ev .lorentz_boost_p4 [] none both both
+    else .error .typeError
+  | .boostCM_of_p4 | .boostCM_of_beta3 | .boostCM_of =>
+    if d < 4 then .error .attributeError else
+    let want : Option Nat := match b with | .boostCM_of_p4 => some 4 | .boostCM_of_beta3 => some 3 | _ => none
+    if (want.isSome && want != some o.ty.dim) || (o.ty.dim != 3 && o.ty.dim != 4) then .error .typeError else
+    match negN ev K 3 o with
+    | .ok (.vec n) =>
+      dispatch ev (if o.ty.dim == 4 then .lorentz_boost_p4 else .lorentz_boost_beta3) [] none [self, n] [self, n]
+    | .ok _ => .error .assertionError
+    | .error e => .error e
+
+/-! ### the object vector as a state machine: coordinate assignment and in-place operators (C15) -/
+
+/-- `v.<name> = a` for one of the nine coordinate names: the assigned group is re-stored in the system the name belongs
+to, the partner coordinate is read through its accessor, the other groups are untouched.  A name of a group the
+vector does not have is a plain instance attribute (no effect on the vector). -/
+def setC (ev : Ev S B) (c : CName) (a : S) (v : Vec S) : Except Err (Vec S) :=
+  let d := v.ty.dim
+  let rest := v.lonEl ++ v.tmpEl
+  match c with
+  | .x => do let y ← getS ev .y v; pure ⟨{ v.ty with az := .xy }, [a, y] ++ rest⟩
+  | .y => do let x ← getS ev .x v; pure ⟨{ v.ty with az := .xy }, [x, a] ++ rest⟩
+  | .rho => do let p ← getS ev .phi v; pure ⟨{ v.ty with az := .rhophi }, [a, p] ++ rest⟩
+  | .phi => do let r ← getS ev .rho v; pure ⟨{ v.ty with az := .rhophi }, [r, a] ++ rest⟩
+  | .z => if d < 3 then pure v else pure ⟨{ v.ty with lon := some .z }, v.azEl ++ [a] ++ v.tmpEl⟩
+  | .theta => if d < 3 then pure v else pure ⟨{ v.ty with lon := some .theta }, v.azEl ++ [a] ++ v.tmpEl⟩
+  | .eta => if d < 3 then pure v else pure ⟨{ v.ty with lon := some .eta }, v.azEl ++ [a] ++ v.tmpEl⟩
+  | .t => if d < 4 then pure v else pure ⟨{ v.ty with tmp := some .t }, v.azEl ++ v.lonEl ++ [a]⟩
+  | .tau => if d < 4 then pure v else pure ⟨{ v.ty with tmp := some .tau }, v.azEl ++ v.lonEl ++ [a]⟩
+
+/-- `_replace_data`: the object keeps its class and coordinate system; every stored coordinate is read from the result -/
+def replaceData (ev : Ev S B) (self : Vec S) (r : Vec S) : Except Err (Vec S) := do
+  let az ← (azCNames self.ty.az).mapM (fun n => getS ev n.acc r)
+  let lon ← match self.ty.lon with
+    | some l => (do let s ← getS ev (lonCName l).acc r; pure [s])
+    | none => pure []
+  let tmp ← match self.ty.tmp with
+    | some t => (do let s ← getS ev (tmpCName t).acc r; pure [s])
+    | none => pure []
+  pure ⟨self.ty, az ++ lon ++ tmp⟩
+
+inductive IOp | add | sub | mul | div
+  deriving DecidableEq, Repr, Inhabited
+
+/-- one operation of a history -/
+inductive Step (S : Type)
+  | set (c : CName) (a : S)              -- assignment to a coordinate name the class defines a setter for
+  | setReadOnly                          -- assignment to a read-only property: AttributeError
+  | setOther                             -- assignment to any other name: plain instance attribute
+  | iopV (op : IOp) (o : Vec S)          -- `+=`, `-=` (and the invalid `*=`, `/=`) with a vector
+  | iopS (op : IOp) (f : S)              -- `*=`, `/=` (and the invalid `+=`, `-=`) with a scalar
+
+/-- the functional result of the operator behind an in-place operator -/
+def iopResult (ev : Ev S B) (K : Consts S) (A : Arith S) (v : Vec S) : Step S → Except Err (Res S B)
+  | .iopV .add o => binary ev K .add v o []
+  | .iopV .sub o => binary ev K .subtract v o []
+  | .iopS .mul f => scaleN ev v.ty.dim f v
+  | .iopS .div f => scaleN ev v.ty.dim (A.inv f) v
+  | _ => .error .typeError
+
+def stepE (ev : Ev S B) (K : Consts S) (A : Arith S) (v : Vec S) (st : Step S) : Except Err (Vec S) :=
+  match st with
+  | .set c a => setC ev c a v
+  | .setReadOnly => .error .attributeError
+  | .setOther => .ok v
+  | st => match iopResult ev K A v st with
+    | .ok (.vec rv) => replaceData ev v rv
+    | .ok _ => .error .typeError
+    | .error e => .error e
+
+/-- one step; a step that raises leaves the state unchanged (the error is the step's output) -/
+def step (ev : Ev S B) (K : Consts S) (A : Arith S) (v : Vec S) (st : Step S) : Vec S × Option Err :=
+  match stepE ev K A v st with
+  | .ok v' => (v', none)
+  | .error e => (v, some e)
+
+def run (ev : Ev S B) (K : Consts S) (A : Arith S) (v : Vec S) : List (Step S) → List (Vec S × Option Err)
+  | [] => []
+  | s :: rest => let r := step ev K A v s; r :: run ev K A r.1 rest
+
+/-- final state of a history -/
+def runFinal (ev : Ev S B) (K : Consts S) (A : Arith S) (v : Vec S) : List (Step S) → Vec S
+  | [] => v
+  | s :: rest => runFinal ev K A (step ev K A v s).1 rest
+
+/-! ### parsing layer: the public names (strings) -/
+
+def accOfName : String → Option Acc
+  | "x" => some .x | "y" => some .y | "rho" => some .rho | "rho2" => some .rho2 | "phi" => some .phi
+  | "z" => some .z | "theta" => some .theta | "eta" => some .eta | "costheta" => some .costheta
+  | "cottheta" => some .cottheta | "mag" => some .mag | "mag2" => some .mag2
+  | "t" => some .t | "t2" => some .t2 | "tau" => some .tau | "tau2" => some .tau2 | "beta" => some .beta
+  | "gamma" => some .gamma | "rapidity" => some .rapidity
+  | "Et" => some .Et | "Et2" => some .Et2 | "Mt" => some .Mt | "Mt2" => some .Mt2
+  | _ => none
+
+/-- momentum spellings (defined on momentum classes only) -/
+def momAccOfName : String → Option Acc
+  | "px" => some .x | "py" => some .y | "pt" => some .rho | "pt2" => some .rho2
+  | "pz" => some .z | "pseudorapidity" => some .eta | "p" => some .mag | "p2" => some .mag2
+  | "E" => some .t | "e" => some .t | "energy" => some .t | "E2" => some .t2 | "e2" => some .t2 | "energy2" => some .t2
+  | "M" => some .tau | "m" => some .tau | "mass" => some .tau | "M2" => some .tau2 | "m2" => some .tau2 | "mass2" => some .tau2
+  | "et" => some .Et | "transverse_energy" => some .Et | "et2" => some .Et2 | "transverse_energy2" => some .Et2
+  | "mt" => some .Mt | "transverse_mass" => some .Mt | "mt2" => some .Mt2 | "transverse_mass2" => some .Mt2
+  | _ => none
+
+def binOfName : String → Option Bin
+  | "add" => some .add | "subtract" => some .subtract | "dot" => some .dot | "equal" => some .equal
+  | "not_equal" => some .not_equal | "isclose" => some .isclose | "is_parallel" => some .is_parallel
+  | "is_antiparallel" => some .is_antiparallel | "is_perpendicular" => some .is_perpendicular
+  | "deltaphi" => some .deltaphi | "deltaangle" => some .deltaangle | "deltaeta" => some .deltaeta
+  | "deltaR" => some .deltaR | "deltaR2" => some .deltaR2 | "deltaRapidityPhi" => some .deltaRapidityPhi
+  | "deltaRapidityPhi2" => some .deltaRapidityPhi2 | "cross" => some .cross | "boost_p4" => some .boost_p4
+  | "boost_beta3" => some .boost_beta3 | "boost" => some .boost | "boostCM_of_p4" => some .boostCM_of_p4
+  | "boostCM_of_beta3" => some .boostCM_of_beta3 | "boostCM_of" => some .boostCM_of
+  | _ => none
+
+/-- setter names: generic coordinate names on every class, momentum spellings on momentum classes -/
+def setterOfName (mom : Bool) : String → Option CName
+  | "x" => some .x | "y" => some .y | "rho" => some .rho | "phi" => some .phi | "z" => some .z
+  | "theta" => some .theta | "eta" => some .eta | "t" => some .t | "tau" => some .tau
+  | "px" => if mom then some .x else none | "py" => if mom then some .y else none
+  | "pt" => if mom then some .rho else none | "pz" => if mom then some .z else none
+  | "E" => if mom then some .t else none | "e" => if mom then some .t else none
+  | "energy" => if mom then some .t else none | "M" => if mom then some .tau else none
+  | "m" => if mom then some .tau else none | "mass" => if mom then some .tau else none
+  | _ => none
+
+/-- is `name` a read-only property of a vector of this type? -/
+def isReadOnlyProp (ty : VT) (name : String) : Bool :=
+  let hasAcc (a : Acc) : Bool := ty.dim ≥ a.need && (!a.momOnly || ty.mom)
+  (match accOfName name with | some a => hasAcc a | none => false)
+  || (ty.mom && (match momAccOfName name with | some a => hasAcc a | none => false))
+  || name == "neg2D" || (name == "neg3D" && ty.dim ≥ 3) || (name == "neg4D" && ty.dim ≥ 4)
+
+/-- classify an assignment `v.<name> = a` -/
+def stepOfSet (ty : VT) (name : String) (a : S) : Step S :=
+  match setterOfName ty.mom name with
+  | some c =>
+    -- a setter exists only on classes that have the coordinate's group
+    if (c == .z || c == .theta || c == .eta) && ty.dim < 3 then
+      (if isReadOnlyProp ty name then .setReadOnly else .setOther)
+    else if (c == .t || c == .tau) && ty.dim < 4 then
+      (if isReadOnlyProp ty name then .setReadOnly else .setOther)
+    else .set c a
+  | none => if isReadOnlyProp ty name then .setReadOnly else .setOther
+
+def ordOf (s : String) : Option Ord := Ord.all.find? (fun o => o.str == s.toLower)
+
+def kwargs (args : List (Arg S)) : List (String × S) :=
+  args.filterMap fun a => match a with | .kw k s => some (k, s) | _ => none
+
+def toDimS (K : Consts S) (target : Nat) (v : Vec S) (kws : List (String × S)) : Except Err (Res S B) :=
+  let lonKw := kws.filterMap fun (k, s) => (lonOfKw k).map (·, s)
+  let tmpKw := kws.filterMap fun (k, s) => (tmpOfKw k).map (·, s)
+  let other := (kws.filter fun (k, _) => (lonOfKw k).isNone && (tmpOfKw k).isNone).length
+  (toDim K.zeroF target v lonKw tmpKw other).map .vec
 
 /-- the 40 `to_<system>` conversions: (method name, az, lon?, tmp?, keyword for lon, keyword for tmp) -/
 def toTable : List (String × Az × Option Lon × Option Tmp × String × String) :=
@@ -125,248 +367,127 @@ def toTable : List (String × Az × Option Lon × Option Tmp × String × String
   (az.flatMap fun (g, m, a) => lon.flatMap fun (lg, lm, l, kg, km) => tmp.flatMap fun (tg, tm, t, tkg, tkm) =>
     [(s!"to_{g}{lg}{tg}", a, some l, some t, kg, tkg), (s!"to_{m}{lm}{tm}", a, some l, some t, km, tkm)])
 
-def azNames : Az → List String | .xy => ["x", "y"] | .rhophi => ["rho", "phi"]
-
-/-- `to_<system>`: every output coordinate is the accessor of that name; missing groups are imputed from the keyword or 0.0 -/
-def toSystem (ev : Ev S B) (K : Consts S) (v : Vec S) (az : Az) (lon : Option Lon) (tmp : Option Tmp)
-    (kl kt : String) (kws : List (String × S)) : Except Err (Res S B) := do
-  let allowed := (if lon.isSome then [kl] else []) ++ (if tmp.isSome then [kt] else [])
-  if kws.any (fun (k, _) => !allowed.contains k) then throw .typeError
-  let d := v.ty.dim
-  let azv ← (azNames az).mapM (fun n => coord ev K n v)
-  let lonv ← match lon with
-    | none => pure []
-    | some l => if d ≥ 3 then (do let s ← coord ev K l.str v; pure [s])
-                else pure [match kws.find? (·.1 == kl) with | some (_, s) => s | none => K.zeroF]
-  let tmpv ← match tmp with
-    | none => pure []
-    | some t => if d ≥ 4 then (do let s ← coord ev K t.str v; pure [s])
-                else pure [match kws.find? (·.1 == kt) with | some (_, s) => s | none => K.zeroF]
-  pure (.vec ⟨{ v.ty with az := az, lon := lon, tmp := tmp }, azv ++ lonv ++ tmpv⟩)
-
-def sameDimBinary := ["add", "subtract", "dot", "equal", "not_equal"]
-def anglePreds := ["is_parallel", "is_antiparallel", "is_perpendicular"]
-def spatialDeltas := ["deltaangle", "deltaeta", "deltaR", "deltaR2"]
-
-/-- every public property / method of a vector (object semantics) -/
+/-- every public property / method of a vector (object semantics), by name -/
 def call (ev : Ev S B) (K : Consts S) (A : Arith S) (meth : String) (self : Vec S) (args : List (Arg S)) :
     Except Err (Res S B) :=
   let d := self.ty.dim
   let kws := kwargs args
-  -- momentum aliases first
-  match momAlias.find? (·.1 == meth) with
-  | some (_, g, need) =>
-    if !self.ty.mom || d < need then .error .attributeError else
-    if !args.isEmpty then .error .typeError else prop ev K g self
+  let u (m : ModuleId) (need : Nat) (sc : List S) (ord : Option Ord := none) : Except Err (Res S B) :=
+    if d < need then .error .attributeError else dispatch ev m sc ord [self] [self]
+  let transform (m : ModuleId) (n need : Nat) : Except Err (Res S B) :=
+    if d < need then .error .attributeError else
+    let sc := args.filterMap fun a => match a with | .sc s => some s | _ => none
+    if sc.length != n then .error .typeError else dispatch ev m sc none [self] [self]
+  match momAccOfName meth with
+  | some a =>
+    if !self.ty.mom then .error .attributeError else
+    if self.ty.dim < a.need then .error .attributeError else
+    if !args.isEmpty then .error .typeError else getAcc ev a self
   | none =>
   match toTable.find? (·.1 == meth) with
   | some (_, az, lon, tmp, kl, kt) =>
-    -- momentum-spelled conversions exist on every vector class (defined on `Vector`)
-    if args.any (fun a => match a with | .kw _ _ => false | _ => true) then .error .typeError
-    else toSystem ev K self az lon tmp kl kt kws
+    if args.any (fun a => match a with | .kw _ _ => false | _ => true) then .error .typeError else
+    let allowed := (if lon.isSome then [kl] else []) ++ (if tmp.isSome then [kt] else [])
+    if kws.any (fun (k, _) => !allowed.contains k) then .error .typeError else
+    (toSystem ev K.zeroF self az lon tmp ((kws.find? (·.1 == kl)).map (·.2)) ((kws.find? (·.1 == kt)).map (·.2))).map .vec
+  | none =>
+  match accOfName meth with
+  | some a => if args.isEmpty then getAcc ev a self
+              else if d < a.need || (a.momOnly && !self.ty.mom) then .error .attributeError else .error .typeError
   | none =>
   match meth, args with
-  | "to_Vector2D", _ => toDim K 2 self kws
-  | "to_Vector3D", _ => toDim K 3 self kws
-  | "to_Vector4D", _ => toDim K 4 self kws
-  | "to_2D", _ => toDim K 2 self kws
-  | "to_3D", _ => toDim K 3 self kws
-  | "to_4D", _ => toDim K 4 self kws
-  | "like", [.v o] => toDim K o.ty.dim self []
-  | "unit", [] => dispatchS ev s!"{grp d}_unit" [] none [self] [self]
-  | "to_beta3", [] => if d < 4 then .error .attributeError else dispatchS ev "lorentz_to_beta3" [] none [self] [self]
-  | "rotateZ", [.sc a] => dispatchS ev "planar_rotateZ" [a] none [self] [self]
-  | "rotateX", [.sc a] => if d < 3 then .error .attributeError else dispatchS ev "spatial_rotateX" [a] none [self] [self]
-  | "rotateY", [.sc a] => if d < 3 then .error .attributeError else dispatchS ev "spatial_rotateY" [a] none [self] [self]
-  | "rotate_euler", [.sc p, .sc t, .sc q] =>
-    if d < 3 then .error .attributeError else dispatchS ev "spatial_rotate_euler" [p, t, q] (some .zxz) [self] [self]
+  | "neg2D", [] => negN ev K 2 self
+  | "neg3D", [] => negN ev K 3 self
+  | "neg4D", [] => negN ev K 4 self
+  | "to_Vector2D", _ => toDimS K 2 self kws
+  | "to_Vector3D", _ => toDimS K 3 self kws
+  | "to_Vector4D", _ => toDimS K 4 self kws
+  | "to_2D", _ => toDimS K 2 self kws
+  | "to_3D", _ => toDimS K 3 self kws
+  | "to_4D", _ => toDimS K 4 self kws
+  | "like", [.v o] => toDimS K o.ty.dim self []
+  | "unit", [] => u (unitMod d) 2 []
+  | "to_beta3", [] => u .lorentz_to_beta3 4 []
+  | "rotateZ", [.sc a] => u .planar_rotateZ 2 [a]
+  | "rotateX", [.sc a] => u .spatial_rotateX 3 [a]
+  | "rotateY", [.sc a] => u .spatial_rotateY 3 [a]
+  | "rotate_euler", [.sc p, .sc t, .sc q] => u .spatial_rotate_euler 3 [p, t, q] (some .zxz)
   | "rotate_euler", [.sc p, .sc t, .sc q, .str o] =>
     if d < 3 then .error .attributeError else
     match ordOf o with
-    | some o => dispatchS ev "spatial_rotate_euler" [p, t, q] (some o) [self] [self]
+    | some o => u .spatial_rotate_euler 3 [p, t, q] (some o)
     | none => .error .typeError
-  | "rotate_nautical", [.sc yaw, .sc pitch, .sc roll] =>
-    if d < 3 then .error .attributeError else dispatchS ev "spatial_rotate_euler" [roll, pitch, yaw] (some .zyx) [self] [self]
-  | "rotate_quaternion", [.sc u, .sc i, .sc j, .sc k] =>
-    if d < 3 then .error .attributeError else dispatchS ev "spatial_rotate_quaternion" [u, i, j, k] none [self] [self]
+  | "rotate_nautical", [.sc yaw, .sc pitch, .sc roll] => u .spatial_rotate_euler 3 [roll, pitch, yaw] (some .zyx)
+  | "rotate_quaternion", [.sc q0, .sc q1, .sc q2, .sc q3] => u .spatial_rotate_quaternion 3 [q0, q1, q2, q3]
   | "rotate_axis", [.v axis, .sc a] =>
     if d < 3 then .error .attributeError else
-    if axis.ty.dim != 3 then .error .typeError else dispatchS ev "spatial_rotate_axis" [a] none [axis, self] [self]
-  | "scale", [.sc f] => dispatchS ev s!"{grp d}_scale" [f] none [self] [self]
-  | "scale2D", [.sc f] => dispatchS ev "planar_scale" [f] none [self] [self]
-  | "scale3D", [.sc f] => if d < 3 then .error .attributeError else dispatchS ev "spatial_scale" [f] none [self] [self]
-  | "scale4D", [.sc f] => if d < 4 then .error .attributeError else dispatchS ev "lorentz_scale" [f] none [self] [self]
-  | "is_timelike", [] => if d < 4 then .error .attributeError else dispatchS ev "lorentz_is_timelike" [K.zeroI] none [self] [self]
-  | "is_spacelike", [] => if d < 4 then .error .attributeError else dispatchS ev "lorentz_is_spacelike" [K.zeroI] none [self] [self]
-  | "is_lightlike", [] => if d < 4 then .error .attributeError else dispatchS ev "lorentz_is_lightlike" [K.tol] none [self] [self]
-  | "is_timelike", [.sc t] => if d < 4 then .error .attributeError else dispatchS ev "lorentz_is_timelike" [t] none [self] [self]
-  | "is_spacelike", [.sc t] => if d < 4 then .error .attributeError else dispatchS ev "lorentz_is_spacelike" [t] none [self] [self]
-  | "is_lightlike", [.sc t] => if d < 4 then .error .attributeError else dispatchS ev "lorentz_is_lightlike" [t] none [self] [self]
-  | "boostX", [.kw k s] => boostAxis "X" k s
-  | "boostY", [.kw k s] => boostAxis "Y" k s
-  | "boostZ", [.kw k s] => boostAxis "Z" k s
-  | "boostX", [.sc s] => boostAxis "X" "beta" s
-  | "boostY", [.sc s] => boostAxis "Y" "beta" s
-  | "boostZ", [.sc s] => boostAxis "Z" "beta" s
+    if axis.ty.dim != 3 then .error .typeError else dispatch ev .spatial_rotate_axis [a] none [axis, self] [self]
+  | "scale", [.sc f] => scaleN ev d f self
+  | "scale2D", [.sc f] => scaleN ev 2 f self
+  | "scale3D", [.sc f] => scaleN ev 3 f self
+  | "scale4D", [.sc f] => scaleN ev 4 f self
+  | "is_timelike", [] => u .lorentz_is_timelike 4 [K.zeroI]
+  | "is_spacelike", [] => u .lorentz_is_spacelike 4 [K.zeroI]
+  | "is_lightlike", [] => u .lorentz_is_lightlike 4 [K.tol]
+  | "is_timelike", [.sc t] => u .lorentz_is_timelike 4 [t]
+  | "is_spacelike", [.sc t] => u .lorentz_is_spacelike 4 [t]
+  | "is_lightlike", [.sc t] => u .lorentz_is_lightlike 4 [t]
+  | "boostX", [.kw "beta" s] => u .lorentz_boostX_beta 4 [s]
+  | "boostY", [.kw "beta" s] => u .lorentz_boostY_beta 4 [s]
+  | "boostZ", [.kw "beta" s] => u .lorentz_boostZ_beta 4 [s]
+  | "boostX", [.kw "gamma" s] => u .lorentz_boostX_gamma 4 [s]
+  | "boostY", [.kw "gamma" s] => u .lorentz_boostY_gamma 4 [s]
+  | "boostZ", [.kw "gamma" s] => u .lorentz_boostZ_gamma 4 [s]
+  | "boostX", [.sc s] => u .lorentz_boostX_beta 4 [s]
+  | "boostY", [.sc s] => u .lorentz_boostY_beta 4 [s]
+  | "boostZ", [.sc s] => u .lorentz_boostZ_beta 4 [s]
   | "boostX", _ => if d < 4 then .error .attributeError else .error .typeError
   | "boostY", _ => if d < 4 then .error .attributeError else .error .typeError
   | "boostZ", _ => if d < 4 then .error .attributeError else .error .typeError
-  | "transform2D", _ => transform "planar_transform2D" 4 2
-  | "transform3D", _ => transform "spatial_transform3D" 9 3
-  | "transform4D", _ => transform "lorentz_transform4D" 16 4
-  | m, [.v o] =>
-    if sameDimBinary.contains m then
-      if o.ty.dim != d then .error .typeError else dispatchS ev s!"{grp d}_{m}" [] none [self, o] [self, o]
-    else if anglePreds.contains m then
-      if o.ty.dim != d then .error .typeError else
-        dispatchS ev s!"{if d == 2 then "planar" else "spatial"}_{m}" [K.tol] none [self, o] [self, o]
-    else if m == "isclose" then
-      if o.ty.dim != d then .error .typeError else
-        dispatchS ev s!"{grp d}_isclose" [K.rtol, K.atol, K.bFalse] none [self, o] [self, o]
-    else if m == "deltaphi" then dispatchS ev "planar_deltaphi" [] none [self, o] [self, o]
-    else if spatialDeltas.contains m then
-      if d < 3 then .error .attributeError else
-      if o.ty.dim != 3 && o.ty.dim != 4 then .error .typeError else dispatchS ev s!"spatial_{m}" [] none [self, o] [self, o]
-    else if m == "deltaRapidityPhi" || m == "deltaRapidityPhi2" then
-      if d < 4 then .error .attributeError else
-      if o.ty.dim != 4 then .error .typeError else dispatchS ev s!"lorentz_{m}" [] none [self, o] [self, o]
-    else if m == "cross" then
-      if d < 3 then .error .attributeError else
-      if d != 3 || o.ty.dim != 3 then .error .typeError else dispatchS ev "spatial_cross" [] none [self, o] [self, o]
-    else if m == "boost_p4" then
-      if d < 4 then .error .attributeError else
-      if o.ty.dim != 4 then .error .typeError else dispatchS ev "lorentz_boost_p4" [] none [self, o] [self, o]
-    else if m == "boost_beta3" then
-      if d < 4 then .error .attributeError else
-      if o.ty.dim != 3 then .error .typeError else dispatchS ev "lorentz_boost_beta3" [] none [self, o] [self, o]
-    else if m == "boost" then
-      if d < 4 then .error .attributeError else
-      if o.ty.dim == 3 then dispatchS ev "lorentz_boost_beta3" [] none [self, o] [self, o]
-      else if o.ty.dim == 4 then dispatchS ev "lorentz_boost_p4" [] none [self, o] [self, o]
-      else .error .typeError
-    else if m == "boostCM_of_p4" || m == "boostCM_of_beta3" || m == "boostCM_of" then
-      if d < 4 then .error .attributeError else
-      let want : Option Nat := if m == "boostCM_of_p4" then some 4 else if m == "boostCM_of_beta3" then some 3 else none
-      if (want.isSome && want != some o.ty.dim) || (o.ty.dim != 3 && o.ty.dim != 4) then .error .typeError else
-      match prop ev K "neg3D" o with
-      | .ok (.vec n) =>
-        dispatchS ev (if o.ty.dim == 4 then "lorentz_boost_p4" else "lorentz_boost_beta3") [] none [self, n] [self, n]
-      | .ok _ => .error .assertionError
-      | .error e => .error e
-    else if m == "is_parallel_tol" then .error .unmodelled
-    else .error .unmodelled
-  | m, [.v o, .sc t] =>
-    if anglePreds.contains m then
-      if o.ty.dim != d then .error .typeError else
-        dispatchS ev s!"{if d == 2 then "planar" else "spatial"}_{m}" [t] none [self, o] [self, o]
-    else .error .unmodelled
-  | m, [] => prop ev K m self
-  -- operators (object backend `__array_ufunc__` routing)
+  | "transform2D", _ => transform .planar_transform2D 4 2
+  | "transform3D", _ => transform .spatial_transform3D 9 3
+  | "transform4D", _ => transform .lorentz_transform4D 16 4
+  | m, [.v o] => match binOfName m with
+    | some b => binary ev K b self o []
+    | none => .error .unmodelled
+  | m, [.v o, .sc t] => match binOfName m with
+    | some b => if b == .is_parallel || b == .is_antiparallel || b == .is_perpendicular then binary ev K b self o [t]
+                else .error .unmodelled
+    | none => .error .unmodelled
   | _, _ => .error .unmodelled
-where
-  boostAxis (ax k : String) (s : S) : Except Err (Res S B) :=
-    if self.ty.dim < 4 then .error .attributeError else
-    if k == "beta" then dispatchS ev s!"lorentz_boost{ax}_beta" [s] none [self] [self]
-    else if k == "gamma" then dispatchS ev s!"lorentz_boost{ax}_gamma" [s] none [self] [self]
-    else .error .typeError
-  transform (mod : String) (n need : Nat) : Except Err (Res S B) :=
-    if self.ty.dim < need then .error .attributeError else
-    let sc := args.filterMap fun a => match a with | .sc s => some s | _ => none
-    if sc.length != n then .error .typeError else dispatchS ev mod sc none [self] [self]
+
+def normAcc : Nat → Acc | 2 => .rho | 3 => .mag | _ => .tau
+def norm2Acc : Nat → Acc | 2 => .rho2 | 3 => .mag2 | _ => .tau2
 
 /-- operators: each stands for a method (property C05, last sentence) -/
 def operator (ev : Ev S B) (K : Consts S) (A : Arith S) (op : String) (self : Vec S) (args : List (Arg S)) :
     Except Err (Res S B) :=
   let d := self.ty.dim
-  let norm := if d == 2 then "rho" else if d == 3 then "mag" else "tau"
   match op, args with
-  | "add", [.v o] => call ev K A "add" self [.v o]
-  | "sub", [.v o] => call ev K A "subtract" self [.v o]
-  | "matmul", [.v o] => call ev K A "dot" self [.v o]
-  | "eq", [.v o] => call ev K A "equal" self [.v o]
-  | "ne", [.v o] => call ev K A "not_equal" self [.v o]
-  | "mul", [.sc f] => call ev K A "scale" self [.sc f]
-  | "rmul", [.sc f] => call ev K A "scale" self [.sc f]
-  | "truediv", [.sc f] => call ev K A "scale" self [.sc (A.inv f)]
-  | "neg", [] => call ev K A "scale" self [.sc K.negOne]
+  | "add", [.v o] => binary ev K .add self o []
+  | "sub", [.v o] => binary ev K .subtract self o []
+  | "matmul", [.v o] => binary ev K .dot self o []
+  | "eq", [.v o] => binary ev K .equal self o []
+  | "ne", [.v o] => binary ev K .not_equal self o []
+  | "mul", [.sc f] => scaleN ev d f self
+  | "rmul", [.sc f] => scaleN ev d f self
+  | "truediv", [.sc f] => scaleN ev d (A.inv f) self
+  | "neg", [] => scaleN ev d K.negOne self
   | "pos", [] => .ok (.vec self)
-  | "abs", [] => prop ev K norm self
+  | "abs", [] => getAcc ev (normAcc d) self
   | "pow", [.sc p] =>
-    if A.isTwo p then prop ev K (norm ++ "2") self
-    else match prop ev K norm self with
+    if A.isTwo p then getAcc ev (norm2Acc d) self
+    else match getAcc ev (normAcc d) self with
       | .ok (.scalar s) => .ok (.scalar (A.pow s p))
       | r => r
-  | "square", [] => prop ev K (norm ++ "2") self
-  | "sqrt", [] => match prop ev K (norm ++ "2") self with
+  | "square", [] => getAcc ev (norm2Acc d) self
+  | "sqrt", [] => match getAcc ev (norm2Acc d) self with
       | .ok (.scalar s) => .ok (.scalar (A.pow s A.quarter))
       | r => r
-  | "cbrt", [] => match prop ev K (norm ++ "2") self with
+  | "cbrt", [] => match getAcc ev (norm2Acc d) self with
       | .ok (.scalar s) => .ok (.scalar (A.pow s A.sixth))
       | r => r
   | _, _ => .error .unmodelled
-
-/-! ### the object vector as a state machine: coordinate assignment and in-place operators (C15) -/
-
-inductive Step (S : Type) | set (name : String) (a : S) | iop (op : String) (arg : Arg S)
-
-/-- `v.<name> = a`: the assigned group is re-stored in the system the name belongs to, with the partner coordinate read
-through its accessor; the other groups are untouched -/
-def setCoord (ev : Ev S B) (K : Consts S) (name : String) (a : S) (v : Vec S) : Except Err (Vec S) := do
-  let d := v.ty.dim
-  let momNames := ["px", "py", "pt", "pz", "E", "e", "energy", "M", "m", "mass"]
-  if momNames.contains name && !v.ty.mom then return v   -- plain instance attribute on a generic vector
-  let g := match name with
-    | "px" => "x" | "py" => "y" | "pt" => "rho" | "pz" => "z"
-    | "E" => "t" | "e" => "t" | "energy" => "t" | "M" => "tau" | "m" => "tau" | "mass" => "tau" | n => n
-  let lonRest := v.lonEl ++ v.tmpEl
-  match g with
-  | "x" => do let y ← coord ev K "y" v; pure ⟨{ v.ty with az := .xy }, [a, y] ++ lonRest⟩
-  | "y" => do let x ← coord ev K "x" v; pure ⟨{ v.ty with az := .xy }, [x, a] ++ lonRest⟩
-  | "rho" => do let p ← coord ev K "phi" v; pure ⟨{ v.ty with az := .rhophi }, [a, p] ++ lonRest⟩
-  | "phi" => do let r ← coord ev K "rho" v; pure ⟨{ v.ty with az := .rhophi }, [r, a] ++ lonRest⟩
-  | "z" => if d < 3 then pure v else pure ⟨{ v.ty with lon := some .z }, v.azEl ++ [a] ++ v.tmpEl⟩
-  | "theta" => if d < 3 then pure v else pure ⟨{ v.ty with lon := some .theta }, v.azEl ++ [a] ++ v.tmpEl⟩
-  | "eta" => if d < 3 then pure v else pure ⟨{ v.ty with lon := some .eta }, v.azEl ++ [a] ++ v.tmpEl⟩
-  | "t" => if d < 4 then pure v else pure ⟨{ v.ty with tmp := some .t }, v.azEl ++ v.lonEl ++ [a]⟩
-  | "tau" => if d < 4 then pure v else pure ⟨{ v.ty with tmp := some .tau }, v.azEl ++ v.lonEl ++ [a]⟩
-  | n =>
-    -- a read-only property of this class cannot be assigned; any other name silently becomes an instance attribute
-    -- (the object classes have a `__dict__`) and leaves the vector unchanged
-    let ro := planarProps ++ ["neg2D"] ++ (if d ≥ 3 then spatialProps ++ ["neg3D"] else [])
-      ++ (if d ≥ 4 then lorentzProps ++ ["neg4D"] else [])
-      ++ (if d ≥ 4 && v.ty.mom then lorentzMomProps else [])
-      ++ (if v.ty.mom then (momAlias.filter (fun (_, _, need) => d ≥ need)).map (·.1) else [])
-    if ro.contains n || ro.contains name then throw .attributeError else pure v
-
-/-- `_replace_data`: the object keeps its class and coordinate system; every stored coordinate is read from the result -/
-def replaceData (ev : Ev S B) (K : Consts S) (self : Vec S) (r : Vec S) : Except Err (Vec S) := do
-  let az ← (azNames self.ty.az).mapM (fun n => coord ev K n r)
-  let lon ← match self.ty.lon with
-    | some l => (do let s ← coord ev K l.str r; pure [s])
-    | none => pure []
-  let tmp ← match self.ty.tmp with
-    | some t => (do let s ← coord ev K t.str r; pure [s])
-    | none => pure []
-  pure ⟨self.ty, az ++ lon ++ tmp⟩
-
-/-- one step; a step that raises leaves the state unchanged (the error is the step's output) -/
-def step (ev : Ev S B) (K : Consts S) (A : Arith S) (v : Vec S) (st : Step S) : Vec S × Option Err :=
-  let r : Except Err (Vec S) := match st with
-    | .set n a => setCoord ev K n a v
-    | .iop op arg =>
-      match operator ev K A op v [arg] with
-      | .ok (.vec rv) => replaceData ev K v rv
-      | .ok _ => .error .typeError
-      | .error .unmodelled => .error .typeError     -- operand kind the operator does not accept
-      | .error e => .error e
-  match r with
-  | .ok v' => (v', none)
-  | .error e => (v, some e)
-
-def run (ev : Ev S B) (K : Consts S) (A : Arith S) (v : Vec S) (steps : List (Step S)) : List (Vec S × Option Err) :=
-  match steps with
-  | [] => []
-  | s :: rest => let r := step ev K A v s; r :: run ev K A r.1 rest
 
 end
 end VG
